@@ -597,8 +597,8 @@ class Interp:
                 return regex.pattern_method(f.__self__, f.__name__, args, kwargs)
         # str methods called with symbolic arguments on concrete receivers
         if isinstance(f, types.BuiltinMethodType) and isinstance(getattr(f, "__self__", None), str):
-            if any(isinstance(a, SStr) for a in args) or (f.__name__ == "join" and args and any(
-                    isinstance(x, SStr) for x in args[0])):
+            if any(is_sym(a) for a in args) or any(is_sym(a) for a in kwargs.values()) or (
+                    f.__name__ == "join" and args and any(isinstance(x, SStr) for x in args[0])):
                 return self.str_method(f.__self__, f.__name__, args, kwargs)
         self.native_calls.add(getattr(f, "__qualname__", repr(f)))
         return f(*args, **kwargs)
@@ -611,6 +611,33 @@ class Interp:
                 piece = p if i == 0 else (s + p if isinstance(p, str) else SStr.lift(s) + p)
                 out = piece if out is None else out + piece
             return "" if out is None else out
+        if name == "format":
+            import string
+            out, auto = "", 0
+            for lit, field, spec, conv in string.Formatter().parse(s):
+                out = out + lit
+                if field is None:
+                    continue
+                if conv or (spec and "{" in spec):
+                    raise Inapplicable("str.format conversion / nested spec")
+                if field == "":
+                    val, auto = args[auto], auto + 1
+                elif field.isdigit():
+                    val = args[int(field)]
+                elif field.isidentifier():
+                    val = kwargs[field]
+                else:
+                    raise Inapplicable(f"str.format field {field!r}")
+                if isinstance(val, (SInt, SBool)):
+                    piece = sformat_int(val, spec)
+                elif isinstance(val, SStr):
+                    piece = sformat_str(val, spec)
+                elif is_sym(val):
+                    raise Inapplicable("str.format of a symbolic number")
+                else:
+                    piece = format(val, spec)
+                out = out + piece if not (isinstance(out, str) and isinstance(piece, SStr)) else piece.__radd__(out)
+            return out
         raise Inapplicable(f"str.{name} with symbolic argument")
 
     def instantiate(self, cls, args, kwargs):
